@@ -29,6 +29,8 @@ FV = ("<func>fv", "${result} = 0.5d0*${v} + ${t}", lambda t, v: 0.5 * v + t)
 
 # a user function with two user-type results (both allocated, assigned and released by the generated code)
 FTWO = ("<func>two", ["${r1}{m} = 2*${y}{m} + ${t}", "${r2}{m} = ${y}{m} - 1"], lambda t, y: (2 * y + t, y - 1))
+# ... and one whose first result is a real scalar and whose second is a user type
+FMIX = ("<func>mix", "${e} = ${t} + 0.5d0", "${r}{m} = ${y}{m} + 1", lambda t, y: (t + 0.5, y + 1))
 # long per-step names (the Fortran identifier is the prefixed, length-limited form)
 LONG_UT = "k_stage_value_for_the_second_half_step_of_y"
 LONG_SC = "scratch_scalar_for_the_error_estimate_of_the_step"
@@ -233,7 +235,8 @@ class FortranGen:
                      1.2 if "<state>r" in self.types else 0,   # 16 two conditional expressions, same condition
                      1.0 if "<state>r" in self.types and depth >= 2 else 0,   # 17 array overwritten with other length
                      0.9,                    # 18 user function with two user-type results
-                     1.0 if "<state>r" in self.types else 0]   # 19 scalar assigned an integer and a real
+                     1.0 if "<state>r" in self.types else 0,   # 19 scalar assigned an integer and a real
+                     0.8]                    # 20 user function returning (scalar, user type)
                 k = t.weighted(w, "opkind")
                 op = self.gen_op(k, D, depth)
                 if op is None:
@@ -505,6 +508,22 @@ class FortranGen:
                     kws.reverse()
                 return ("call", (tgt,), Call("<builtin>matmul", [Var(a), Var(a)], kws), self.mode())
             return ("call", (tgt,), Call("<builtin>matmul", [Var(a), Var(a), Const(c), Const(r)]), self.mode())
+        if k == 20:
+            cands = [x for x in SC_TEMPS if self.cls.get(x, "inexact") == "inexact"]
+            e_ = self.new_name(cands, "real", D)
+            r_ = self.new_name(UT_TEMPS, "ut", D)
+            if e_ is None or r_ is None:
+                return None
+            self.cls[e_] = "inexact"
+            srcs = [u for u in uts if u != r_] or ["<state>y"]
+            self.used_funcs.add(FMIX[0])
+            D.add(e_)
+            D.add(r_)
+            out = [("call", (e_, r_), Call(FMIX[0], [Var("<t>"), Var(self.pick(srcs, "arg"))]), self.mode())]
+            if t.chance(0.6, "usemix"):
+                out.append(("assign", "<state>y", None,
+                            Bin("+", Var("<state>y"), Bin("*", Var(e_), Var(r_))), [], self.mode()))
+            return out
         if k == 19:
             # one scalar holds an integer-valued result (len) and a real value in the same phase, in either
             # order; its kind is the join of both, and the real value must survive
@@ -891,6 +910,16 @@ def make_registry(sc):
             freg = register_ode_rhs(freg, "v", identifier=fn, input_type_ids=("v",), input_names=("v",))
             freg = freg.register_codegen(fn, "fortran", f.CallCode("\n    " + FV[1] + "\n    "))
             twins[fn] = FV[2]
+            continue
+        if fn == FMIX[0]:
+            from dagrt.data import Scalar, UserType
+            from dagrt.function_registry import register_function
+            freg = register_function(freg, fn, ("t", "y"), result_names=("e", "r"),
+                                     result_kinds=(Scalar(is_real_valued=True), UserType("y")))
+            members = ["%a", "%b"] if getattr(sc, "struct", None) else [""]
+            text = "    " + FMIX[1] + "\n" + "\n".join("    " + FMIX[2].replace("{m}", m_) for m_ in members)
+            freg = freg.register_codegen(fn, "fortran", f.CallCode("\n" + text + "\n    "))
+            twins[fn] = FMIX[3]
             continue
         if fn == FTWO[0]:
             from dagrt.data import UserType
